@@ -198,6 +198,15 @@ def gen_history(rng, spec, roots, refs, opts):
                     if refs[live[c2]].tasks[t]['spec']['data_kind'] == 'generator':
                         kinds = ['raise_in_generator', 'raise_in_generator', 'raise_before']
                     steps.append({'op': 'arm_fault', 'chain': c2, 'task': t, 'kind': rng.choice(kinds), 'ri': live[c2]})
+                    if opts.get('p_force') and rng.random() < opts.get('p_fault_force', 0.3) and refs[live[c2]].tasks[t]['spec']['data_kind'] != 'memory':
+                        # force(delete_data=True, recompute=True) during which one recomputation fails: nothing of the failed task and of what
+                        # depends on it may stay stored (the rest of this chain's history is not judged: which tasks were already recomputed
+                        # depends on an unspecified order)
+                        root_t = rng.choice([t] + sorted(refs[live[c2]].ancestors(t)))
+                        steps.append({'op': 'force', 'chain': c2, 'tasks': [root_t], 'ri': live[c2], 'recompute': True, 'delete_data': True, 'expect_fault': t})
+                        steps.append({'op': 'snapshot', 'chain': c2, 'light': True, 'ri': live[c2]})
+                        steps.append({'op': 'disarm', 'chain': c2})
+                        break
                     steps.append({'op': 'value', 'chain': c2, 'task': rng.choice([t] + sorted(refs[live[c2]].descendants(t))), 'ri': live[c2]})
                     steps.append({'op': 'disarm', 'chain': c2})
                 else:
@@ -231,6 +240,7 @@ class Model:
         self.chains = {}        # (session, cid) -> {'ri':, 'objs': {name: Obj}}
         self.writer = {}        # location -> (session, cid, ri) of the run that stored it
         self.tainted = False
+        self.attempt_only = []
         self.ri_chain = None
         self.pools = {}
 
@@ -277,12 +287,21 @@ class Model:
             o.in_memory = True
             return True
         t = self.t(o.ri, o.ref_name)
+        och = self.ri_chain.get(o.ri, ch) if self.ri_chain else self.chains.get(o.owner, ch)    # names of a shared object belong to the chain that created it
+        arg_targets = t.get('arg_targets', [])
+        for target in arg_targets:
+            # run arguments are computed before the run body is entered: if one of them fails this task's run never starts
+            if not self.request(och, och['objs'][target], runs, fault_task):
+                # (its log file was already re-opened for the run that never started)
+                self.attempt_only.append((o.ref_name, t['key'], tuple(sorted(o.names))))
+                return False
         runs.append((o.ref_name, t['key'], tuple(sorted(o.names))))
         faulty = fault_task is not None and fault_task[0] in o.names
         if faulty and fault_task[1] == 'raise_before':
             return False
-        och = self.ri_chain.get(o.ri, ch) if self.ri_chain else self.chains.get(o.owner, ch)    # names of a shared object belong to the chain that created it
         for target in t['read_targets']:
+            if target in arg_targets:
+                continue
             if not self.request(och, och['objs'][target], runs, fault_task):
                 return False
         if faulty:
@@ -354,6 +373,7 @@ def evaluate_history(lab, spec, roots, refs, sessions, counters, want):
         if sess['spawn']:
             counters['spawned_sessions'] += 1
         armed = None
+        pending_absent = None
         for step, o in zip(sess['steps'], r['steps']):
             op = step['op']
             counters['steps'] += 1
@@ -381,6 +401,14 @@ def evaluate_history(lab, spec, roots, refs, sessions, counters, want):
                     add('C04', 'runs_on_inspect', f'{here}: inspection `{step.get("what", "snapshot")}` executed run of {[x["task"] for x in obs_runs]}')
                 if not o['ok']:
                     add('C04', 'inspect_failed', f'{here}: inspection raised {o.get("exc")}: {o.get("msg")}')
+                if op == 'snapshot' and o['ok'] and pending_absent is not None:
+                    for n in pending_absent:
+                        counters['failed_forced_recompute_checks'] += 1
+                        d = o['snapshot']['tasks'].get(n) or {}
+                        if d.get('has_data'):
+                            add('C07', 'stale_after_failed_forced_recompute', f'{here}: force(delete_data=True, recompute=True) failed while recomputing; {n} (the failed task '
+                                                                              f'or a task depending on it) still has a stored result: a stale result stays visible')
+                    return disc, None
                 if op == 'snapshot' and o['ok']:
                     for n, d in o['snapshot']['tasks'].items():
                         ob = ch['objs'][n]
@@ -408,6 +436,7 @@ def evaluate_history(lab, spec, roots, refs, sessions, counters, want):
                 ob = ch['objs'][step['task']]
                 exp_runs = []
                 was_mem, was_stored = ob.in_memory, (model.persisting(ob) and model.loc(ob) in model.store)
+                model.attempt_only = []
                 ok = model.request(ch, ob, exp_runs, fault_task=armed)
                 if model.tainted:
                     # outside the statement: a result deliberately deleted through one chain while another chain still holds a handle
@@ -489,13 +518,23 @@ def evaluate_history(lab, spec, roots, refs, sessions, counters, want):
                 if not ok:
                     # every run the model saw starting in a failed request is an attempt (a dependant whose argument evaluation
                     # failed never reaches its run body, but its log was already re-opened)
-                    for (n_, k_, _) in exp_runs:
+                    for (n_, k_, _) in exp_runs + model.attempt_only:
                         latest[('attempt', tinfo(n_, k_)['slug'], k_)] = f'failed@{sid}:{o["step"]}'
                 note_runs(latest, o['runs'], ref, ch, sid, failed_task=None if ok else armed)
                 continue
             if op == 'force':
                 counters['force_steps'] += 1
                 names = step['tasks']
+                if step.get('expect_fault'):
+                    ft = step['expect_fault']
+                    objs = model.closure(ch, names)
+                    if o['ok']:
+                        add('C05', 'fault_swallowed', f'{here}: the recomputation of {ft} raised but force(recompute=True) returned normally')
+                        return disc, None
+                    fobj = ch['objs'][ft]
+                    down = set(ref.descendants(ft)) | {ft}
+                    pending_absent = sorted(n_ for n_ in down if ch['objs'][n_] in objs and model.persisting(ch['objs'][n_]))
+                    continue
                 if step.get('via') == 'task':
                     objs = []
                     for n in names:
